@@ -30,8 +30,8 @@ import (
 
 	"github.com/MontFerret/ferret/pkg/compiler"
 
-	. "verif/harness/common"
 	"verif/harness/cmd/c05/surface"
+	. "verif/harness/common"
 	"verif/harness/fqlast"
 	"verif/harness/fqlrun"
 )
